@@ -34,7 +34,7 @@ impl Prop for C16 {
         "generated workspaces whose series lines use -pN / -p N / --strip=N / --strip N (N 0..3 with matching name prefixes), -R / --reverse, comments, blank lines, and whose modify entries have differing ---/+++ names in 4 of 8 cases: old name absent (never existed, or deleted/renamed away by an earlier patch of the same run, so it is still on disk while the run resolves names) with the new name being the file, or old name being the file (possibly created earlier in the run) with the new name absent or another existing file. Each workspace is pushed (--backup always) sequentially, with 2..16 threads, and split into two invocations. Oracle: tree == model T_n in all three modes (model: target = old name if it currently exists in the model state else new name, exactly N components stripped, direction per -R), the three runs agree on tree and applied-patches, and .pc/<patch>/<path> entries name the resolved path. non-trivial = strip != 1, or -R, or differing names whose resolution depends on an earlier patch of the same run; distinct = distinct case".into()
     }
     fn assumptions(&self) -> Vec<String> {
-        vec!["-pN with N >= path depth is covered only by C11's no-crash oracle".into(), "differing names are not combined with -R".into()]
+        vec!["-pN with N >= path depth is covered only by C11's no-crash oracle".into(), "differing names are combined with -R too: the statement makes the choice depend on the old name only, whatever the direction".into()]
     }
     fn budget(&self, tier: Tier) -> (u32, usize) {
         (tier.pick(250, 5000), 900)
@@ -228,8 +228,16 @@ impl Prop for C17 {
                 applied = names[..m2].to_vec();
                 set_state(&mut ws, m2);
                 let i = ch.range(m2, n - 1);
-                let which = ch.below(BROKEN_PATCHES.len() + 3);
-                if which > BROKEN_PATCHES.len() {
+                let which = ch.below(BROKEN_PATCHES.len() + 4);
+                if which == BROKEN_PATCHES.len() + 3 {
+                    // the series names something that is not a file: it can be opened but neither read nor mapped
+                    ws.spec.patches.retain(|(nm, _)| nm != &names[i]);
+                    ws.spec.dirs.push(format!("patches/{}", names[i]));
+                    if ch.chance(1, 2) {
+                        opts.mmap = true;
+                    }
+                    kind = format!("patch-is-a-directory@{}", i - m2);
+                } else if which > BROKEN_PATCHES.len() {
                     // the real patch, cut off inside the body of its last hunk
                     let mut done = false;
                     for p in ws.spec.patches.iter_mut() {
@@ -359,6 +367,112 @@ pub struct C19Case {
     pub escapes: bool,
     /// a good patch before the bad one?
     pub good_first: bool,
+    /// second family: an ordinary workspace pushed with -d from another directory full of decoys
+    #[serde(default)]
+    pub launch: Option<Launch>,
+}
+
+#[derive(Clone, Debug, Serialize, Deserialize)]
+pub struct Launch {
+    pub ws: WsCase,
+    pub opts: PushOpts,
+    /// -d gets an absolute path (else a relative one leading out of the launch directory)
+    pub abs: bool,
+    /// directories (relative to the launch directory) named like directories of the workspace
+    pub decoy_dirs: Vec<String>,
+    /// files named like files of the workspace
+    pub decoy_files: Vec<String>,
+}
+
+fn build_launch(ch: &mut Chooser, cx: &mut CaseCtx) -> Launch {
+    let o = WsGenOpts { fail_chance: 2, max_patches: 4, max_files: 6, max_lines: 10, ..Default::default() };
+    let ws = gen_ws(ch, cx, &o);
+    let mut opts = gen_opts(ch, true);
+    opts.via_d = false;
+    opts.mmap = false;
+    let mut files: Vec<String> = Vec::new();
+    for st in &ws.states {
+        for p in st.files.keys() {
+            if !files.contains(p) {
+                files.push(p.clone());
+            }
+        }
+    }
+    for m in &ws.metas {
+        for op in &m.ops {
+            for p in [&op.old_path, &op.new_path] {
+                if !files.contains(p) {
+                    files.push(p.clone());
+                }
+            }
+        }
+    }
+    let mut dirs: Vec<String> = Vec::new();
+    for f in &files {
+        let mut d = f.as_str();
+        while let Some(i) = d.rfind('/') {
+            d = &d[..i];
+            if !dirs.iter().any(|x| x == d) {
+                dirs.push(d.to_string());
+            }
+        }
+    }
+    dirs.sort();
+    files.sort();
+    let decoy_dirs: Vec<String> = dirs.iter().filter(|_| ch.chance(1, 2)).cloned().collect();
+    let decoy_files: Vec<String> = files.iter().filter(|f| ch.chance(1, 4) && !decoy_dirs.iter().any(|d| d == *f || d.starts_with(&format!("{}/", f)))).cloned().collect();
+    Launch { ws, opts, abs: ch.chance(1, 2), decoy_dirs, decoy_files }
+}
+
+fn check_launch(l: &Launch, cx: &mut CaseCtx) -> Verdict {
+    cx.label("family-launch-with-d-from-a-decoy-directory");
+    label_ws(&l.ws, cx);
+    cx.label_if(l.abs, "d-absolute");
+    cx.label_if(!l.decoy_dirs.is_empty(), "decoy-directories");
+    cx.label_if(!l.decoy_files.is_empty(), "decoy-files");
+    let removes_dir = l.ws.feat.iter().any(|f| f == "delete" || f == "rename");
+    let makes_dir = l.ws.feat.iter().any(|f| f == "create-in-new-dir");
+    cx.label_if(removes_dir, "may-empty-a-directory");
+    if (removes_dir || makes_dir) && !l.decoy_dirs.is_empty() {
+        cx.nontrivial = true;
+    }
+    let base = cx.env.fresh_dir("c19l-");
+    let launch = base.join("launch");
+    let wsroot = base.join("work/ws");
+    l.ws.spec.materialise(&wsroot);
+    std::fs::create_dir_all(&launch).expect("launch dir");
+    for d in &l.decoy_dirs {
+        std::fs::create_dir_all(launch.join(d)).ok();
+    }
+    for f in &l.decoy_files {
+        let p = launch.join(f);
+        if let Some(par) = p.parent() {
+            std::fs::create_dir_all(par).ok();
+        }
+        if !p.exists() {
+            std::fs::write(&p, VICTIM).ok();
+        }
+    }
+    let outside = |b: &std::path::Path| -> ws::Snapshot { ws::snapshot(b).into_iter().filter(|(p, _)| !p.starts_with(b"work/ws/") && p.as_slice() != b"work/ws").collect() };
+    ws::pin_mtimes(&base);
+    let before = outside(&base);
+    let mut a = l.opts.args();
+    a.insert(1, if l.abs { wsroot.to_string_lossy().into_owned() } else { "../work/ws".to_string() });
+    a.insert(1, "-d".to_string());
+    let out = ws::run_bin(&cx.env.bin, &launch, &a, &Default::default(), &cx.env.scratch);
+    cx.evals += 1;
+    let after = outside(&base);
+    ws::rm_rf(&base);
+    if out.exit == Exit::Timeout {
+        return Verdict::Inconclusive("watchdog".into());
+    }
+    if let Some(c) = crash_or_timeout(&out.exit) {
+        return Verdict::Fail(format!("push crashed: {}; stderr {}", c, ws::lossy(&out.stderr)));
+    }
+    if after != before {
+        return Verdict::Fail(format!("push -d <workspace> started in another directory touched something OUTSIDE the workspace: {} (args {:?})", first_snapshot_diff(&before, &after), a));
+    }
+    Verdict::Pass
 }
 
 const VICTIM: &[u8] = b"victim line 1\nvictim line 2\nvictim line 3\n";
@@ -420,7 +534,7 @@ impl Prop for C19 {
         "C19"
     }
     fn rule(&self) -> String {
-        "file names built from components {.., ., empty, plain names, absolute prefix pointing at a victim file under the scratch root} placed in ---, +++, diff --git and rename position, bare / C-quoted / octal-quoted (escape spellings of '/' and '.'), x strip 0..3 x kind create/modify/delete/rename x threads, optionally after a good patch; the workspace sits two levels inside a sentinel directory holding plausible victim files exactly where the names resolve to. Oracle: the snapshot of everything outside the workspace is unchanged; when a name that survives stripping is absolute or leaves the tree lexically the push exits 1 (refused, no crash) and the workspace itself is unchanged too; names containing '..' that stay inside may be refused or applied. non-trivial = the stripped name escapes; distinct = distinct case".into()
+        "file names built from components {.., ., empty, plain names, absolute prefix pointing at a victim file under the scratch root} placed in ---, +++, diff --git and rename position, bare / C-quoted / octal-quoted (escape spellings of '/' and '.'), x strip 0..3 x kind create/modify/delete/rename x threads, optionally after a good patch; the workspace sits two levels inside a sentinel directory holding plausible victim files exactly where the names resolve to. Oracle: the snapshot of everything outside the workspace is unchanged; when a name that survives stripping is absolute or leaves the tree lexically the push exits 1 (refused, no crash) and the workspace itself is unchanged too; names containing '..' that stay inside may be refused or applied. Second family (1 case in 4): an ordinary generated workspace (creations in new nested directories, deletions and renames that empty directories, failing patches) pushed with -d <absolute or relative path> from a different launch directory that holds decoy directories and files named like those of the workspace; oracle: everything outside the workspace, directories and mtimes included, is unchanged. non-trivial = the stripped name escapes / the run creates or empties a directory that has a decoy; distinct = distinct case".into()
     }
     fn assumptions(&self) -> Vec<String> {
         vec!["escape is judged lexically on the name after removing N components the way std::path::Components counts them".into()]
@@ -429,6 +543,10 @@ impl Prop for C19 {
         (tier.pick(1500, 25000), 120)
     }
     fn build(&self, ch: &mut Chooser, cx: &mut CaseCtx) -> C19Case {
+        if ch.chance(1, 4) {
+            let l = build_launch(ch, cx);
+            return C19Case { minus: B(vec![]), plus: B(vec![]), git: None, rename: false, strip: 0, kind: "launch".into(), stripped_old: String::new(), stripped_new: String::new(), threads: l.opts.threads, escapes: false, good_first: false, launch: Some(l) };
+        }
         let strip = ch.below(4);
         let kind = ch.pick(&["create", "modify", "delete", "rename", "rename-only", "mode-only"]).to_string();
         // the escaping name, relative to the workspace root, before prefixing
@@ -506,9 +624,13 @@ impl Prop for C19 {
             threads: *ch.pick(&[1usize, 2, 4]),
             escapes,
             good_first: ch.chance(1, 2),
+            launch: None,
         }
     }
     fn check(&self, case: &C19Case, cx: &mut CaseCtx) -> Verdict {
+        if let Some(l) = &case.launch {
+            return check_launch(l, cx);
+        }
         cx.label(&format!("kind-{}", case.kind));
         cx.label(&format!("strip-{}", case.strip));
         cx.label_if(case.escapes, "escapes");
